@@ -71,7 +71,7 @@ def _attribute(exc: BaseException, pattern: str, flags_note: str) -> str | None:
 
 def run(ck: Check) -> int:
     common.import_wcmatch()
-    from wcmatch import _wcparse as W, fnmatch as F, glob as G, wcmatch as WM
+    from wcmatch import _wcparse as W, fnmatch as F, glob as G, wcmatch as WM, pathlib as WP
     ck.build()
     ck.audit()
     R = common.rng('C10')
@@ -178,6 +178,16 @@ def run(ck: Check) -> int:
                               lambda: G.globfilter([conv('x'), conv('a/b/z')], [pp, conv('!x')] if k % 3 == 0 else pp, flags=(gfl | G.REALPATH | (G.NEGATE if k % 3 == 0 else 0)) & ~G.FOLLOW, root_dir=conv(tmp))))
                 if k % 4 == 0:
                     calls.append(('wcmatch.WcMatch', wfl, lambda: WM.WcMatch(conv(tmp), pp, pp if k % 8 == 0 else None, wfl).match()))
+                if not isb:
+                    # pathlib entry points (ValueError for absolute patterns / foreign REALPATH is documented); added after
+                    # seeded change C10b: only Path.rglob sets _EXTMATCHBASE, which reads parts[0] of the split pattern
+                    pfl = gfl & ~(G.FOLLOW | G.FORCEWIN | G.FORCEUNIX)
+                    calls.append(('pathlib.Path.glob', pfl, lambda: list(WP.Path(tmp).glob(pp, flags=pfl))))
+                    calls.append(('pathlib.Path.rglob', pfl, lambda: list(WP.Path(tmp).rglob(pp, flags=pfl))))
+                    calls.append(('pathlib.PurePath.match', pfl & ~G.REALPATH, lambda: [WP.PurePosixPath(nm or 'a').match(pp, flags=pfl & ~G.REALPATH) for nm in names]))
+                    calls.append(('pathlib.PurePath.globmatch', pfl & ~G.REALPATH, lambda: [WP.PureWindowsPath(nm or 'a').globmatch(pp, flags=pfl & ~G.REALPATH) for nm in names]))
+                    if k % 3 == 0:
+                        calls.append(('pathlib.Path.rglob[list]', pfl | G.SPLIT | G.BRACE, lambda: list(WP.Path(tmp).rglob(['a', pp], flags=pfl | G.SPLIT | G.BRACE))))
                 for api, fl, thunk in calls:
                     sr.evaluations += 1
                     budget[0] = 0
